@@ -376,7 +376,7 @@ def frequency(chk, quick):
             chk.notes.append("cell %s skipped: the crate's default parameters are not the documented ones" % c["shape"])
             continue
         p = float(orc[key_of(c)])
-        n, mean, var = stats.hist_moments(f["hist"], c["m"])
+        n, mean, var = stats.hist_moments(f["hist"], f.get("m", c["m"]))   # Default sketchers: their real number of registers
         eps = stats.bernstein_radius(n, var, cell_delta(len(cells)))
         chk.add("evaluations", n + f["panics"])
         dev = abs(mean - p)
